@@ -3,6 +3,7 @@ import os
 import sys
 sys.path.insert(0, os.path.dirname(os.path.abspath(__file__)))
 import core  # noqa: E402
+import genes  # noqa: E402  (kernel II: gene bookkeeping; contexts at specification level, coq/theories/Genes/Ctx.v)
 
 if __name__ == "__main__":
     sys.exit(core.main(
@@ -15,4 +16,8 @@ if __name__ == "__main__":
              "observation (objects, cross references, raw GLPK problem) at every __enter__ is compared with the one after "
              "the matching __exit__; non-trivial = the history contains an operation other than Enter/Exit/NewRxn; "
              "distinct = distinct op lists",
-        manifest_trusted=["undo closures are modelled as data (Core/Model.v `undo`, `run_undo`)"]))
+        manifest_trusted=["undo closures are modelled as data (Core/Model.v `undo`, `run_undo`)",
+                          "genes kernel: contexts are modelled at specification level (Exit puts the saved state back); "
+                          "the comparison of the real objects at __enter__ and after __exit__ is the Coq function "
+                          "`restored` of Genes/Check.v evaluated on the harness's observations"],
+        extra=[genes.run_ctx], extra_targets=genes.EXTRA_TARGETS))
